@@ -232,6 +232,7 @@ func Validate(pieces []Piece) (accepted bool, panicked bool, why string) {
 	v := rsm.NewSnapshotValidator()
 	for i, p := range pieces {
 		if !v.AddChunk(p.Data, p.ID) {
+			ForgetsRefusal = validatesAfterRefusal(v, pieces[i+1:])
 			return false, false, fmt.Sprintf("AddChunk refused piece %d", i)
 		}
 	}
@@ -239,4 +240,23 @@ func Validate(pieces []Piece) (accepted bool, panicked bool, why string) {
 		return false, false, "Validate returned false"
 	}
 	return true, false, ""
+}
+
+// ForgetsRefusal is set by Validate when, after AddChunk refused a piece, the
+// same validator fed with the rest of the stream answers Validate() == true.
+// The stream was rejected (AddChunk said so), so this is no violation of C14;
+// it is recorded because a caller that keeps going after a refusal (C15)
+// would be told the stream is good.
+var ForgetsRefusal bool
+
+func validatesAfterRefusal(v *rsm.SnapshotValidator, rest []Piece) (ok bool) {
+	defer func() {
+		if r := recover(); r != nil {
+			ok = false
+		}
+	}()
+	for _, p := range rest {
+		_ = v.AddChunk(p.Data, p.ID)
+	}
+	return v.Validate()
 }
